@@ -98,11 +98,15 @@ func (r *Registry) AddImport(pkg *types.Package) *Package {
 
 	imprt := Package{pkg: pkg, Alias: r.aliases[path]}
 
-	if conflict, ok := r.searchImport(imprt.Qualifier()); ok {
+	// Register the new import before resolving its conflict: the resolver
+	// must see the name it has just given to it when it goes on renaming
+	// other packages.
+	conflict, ok := r.searchImport(imprt.Qualifier())
+	r.imports[path] = &imprt
+	if ok {
 		r.resolveImportConflict(&imprt, conflict, 0)
 	}
 
-	r.imports[path] = &imprt
 	return &imprt
 }
 
